@@ -37,6 +37,10 @@ pub struct ServerFx {
     pub base_threads: usize,
 }
 
+/// `min_backoff_ms` of the servers started by this process (the wait after a failed accept);
+/// C15 lowers it so that injected accept failures cost milliseconds.
+pub static ACCEPT_MIN_BACKOFF_MS: std::sync::atomic::AtomicU64 = std::sync::atomic::AtomicU64::new(500);
+
 impl ServerFx {
     /// Start a server over a fresh store in `dir`.
     pub fn start(dir: &Path, cfg: &StoreCfg, max_connections: usize, workers: usize) -> Result<ServerFx, String> {
@@ -66,7 +70,7 @@ impl ServerFx {
                         let conf = bitcask::net::Config {
                             host: "127.0.0.1".parse().unwrap(),
                             port,
-                            min_backoff_ms: 500,
+                            min_backoff_ms: ACCEPT_MIN_BACKOFF_MS.load(SeqCst),
                             max_backoff_ms: 64000,
                             max_connections,
                         };
